@@ -42,19 +42,19 @@ Print Assumptions C02_trace_is_ref_trace.
 
 (* in the specification an action runs exactly when its expression has matched and
    sees: text = the matched bytes, pos = the match start, its labels = the scope *)
-Theorem C02_ref_action_context : forall c ev n H R inv nid id e sc g m g1 sc1 m1 v0,
+Theorem C02_ref_action_context : forall (c : rdata) ev n H R inv nid id e sc g m g1 sc1 m1 v0,
   ev H R inv e sc g m = ROk v0 g1 sc1 m1 ->
-  let x := block_ctx_ref c id (slice c (g_off g) (g_off g1)) (pos_of (cData c) (g_off g)) sc1 g1 m1 in
-  match ce_act (cE c) id x with
+  let x := block_ctx_ref c id (slice c (g_off g) (g_off g1)) (pos_of (rData c) (g_off g)) sc1 g1 m1 in
+  match ce_act (rE c) id x with
   | CbRet r err st' gs' =>
       exists m2, reval_body c ev n H R inv (EAct nid id e) sc g m = ROk r g1 sc1 m2 /\ u_gs m2 = gs'
   | CbPanic pv st' gs' =>
-      exists m2, reval_body c ev n H R inv (EAct nid id e) sc g m = RPanic pv m2 (pos_of (cData c) (g_off g1)) R
+      exists m2, reval_body c ev n H R inv (EAct nid id e) sc g m = RPanic pv m2 (pos_of (rData c) (g_off g1)) R
   end.
 Proof. exact act_context. Qed.
 Print Assumptions C02_ref_action_context.
 
-Theorem C02_ref_label_binding : forall c ev n H R inv nid l e sc g m v g' sc' m',
+Theorem C02_ref_label_binding : forall (c : rdata) ev n H R inv nid l e sc g m v g' sc' m',
   reval_body c ev n H R inv (ELab nid l e) sc g m = ROk v g' sc' m' -> sc' = bind_scope l v sc.
 Proof. exact lab_binds. Qed.
 Print Assumptions C02_ref_label_binding.
